@@ -9,3 +9,5 @@ def run(ctx):
     if not getattr(ctx, "replay", None):
         from .. import rawsnap
         rawsnap.run(ctx, "C11")      # sf_write_raw in auto-header mode: every image is a valid file with the frames written so far
+        from .. import small4        # SDS whole-file sessions: the image after a header update, byte for byte (lean/SfModel/SdsFile.lean)
+        small4.run_sds(ctx, found=bool(ctx.violations))
